@@ -717,6 +717,11 @@ int tls13_process_client_hello_exts(const uint8_t *exts, size_t extslen,
 		}
 	}
 
+	// without a key_share client_ecdhe_public stays unset
+	if (!key_share_seen) {
+		error_print();
+		return -1;
+	}
 	return 1;
 }
 
